@@ -21,6 +21,7 @@ EXPLANATION = (
     "the specs are indexed only under args.array_job; C32.3 reunite key: preexisting_batch_jobs is keyed only by get_hash_from_job_name(...) or lines of "
     "the eval-hash file and consulted only with job.eval_hash; get_batch_job_name separates with '-' and the parse regex captures the last "
     "dash-free component (regex AST); C32.4 per-job scratch paths are functions of job.eval_hash; results/errors are read from the paths written. C32.5 in oneshot_command every path that reaches the call of the task function with an output path set passes output_file.remove(): executors judge success by the presence of the output file, so a stale one must not survive a re-execution that raises."
+    " C32.6 the four sites that decide `may a previous remote result be reused` agree on `cache scope == BACKEND`: get_oneshot_command's flag expression is evaluated for every CacheScope member (--no-cache for all but BACKEND), every production caller of get_oneshot_command passes job_options, oneshot returns an existing output only under `not args.no_cache`, and every executor's preexisting-job lookup is conjoined with `CacheScope(<options>.get('cache_scope', BACKEND)) == BACKEND`."
 )
 
 SCR = "redun/executors/scratch.py"
